@@ -73,6 +73,63 @@ fn c12() -> usize {
     n
 }
 
+#[path = "../../replay/src/lexers.rs"]
+#[allow(dead_code)]
+mod lexers;
+
+/// C03 for the optional value types: the inline literal of a Json / date / time / uuid / decimal / network value is ONE literal token of the
+/// backend whose content is the value's text (Json: serde's serialisation, which may contain any character); array elements likewise
+fn c03() -> usize {
+    use sea_query::{MysqlQueryBuilder, PostgresQueryBuilder, QueryBuilder, SqliteQueryBuilder};
+    let mut n = 0usize;
+    let hostile = ["it's", "back\\slash", "q\"uote", "a'; DROP TABLE t; --", "\\'", "line\nbreak", "tab\there", "\u{8}", "%_", "日本'語", ""];
+    let bs: [(&str, &dyn QueryBuilder); 3] = [("mysql", &MysqlQueryBuilder), ("postgres", &PostgresQueryBuilder), ("sqlite", &SqliteQueryBuilder)];
+    let lex = |be: &str, lit: &str| -> Option<(String, usize)> { let t: Vec<char> = lit.chars().collect(); match be { "mysql" => lexers::mysql_string_lit(&t), "postgres" => lexers::pg_string_lit(&t), _ => lexers::sqlite_string_lit(&t) } };
+    let mut check = |what: String, v: Value, want: String| {
+        for (be, qb) in bs {
+            n += 1;
+            let lit = qb.value_to_string(&v);
+            match lex(be, &(lit.clone() + " ")) {
+                Some((got, end)) if got == want && end == lit.chars().count() => {}
+                other => witness("C03", what.clone(), format!("{be}: literal {lit:?} lexes as {other:?}"), &format!("one literal token decoding to {want:?}")),
+            }
+        }
+    };
+    for h in hostile {
+        let j = serde_json::json!({ "k": h, h: [h, 1, null] });
+        check(format!("json object with {h:?}"), Value::Json(Some(Box::new(j.clone()))), j.to_string());
+        let j = serde_json::json!(h);
+        check(format!("json string {h:?}"), Value::Json(Some(Box::new(j.clone()))), j.to_string());
+    }
+    use chrono::TimeZone;
+    let d = chrono::NaiveDate::from_ymd_opt(2024, 2, 29).unwrap(); let t = chrono::NaiveTime::from_hms_opt(23, 59, 58).unwrap();
+    check("chrono date".into(), d.into(), "2024-02-29".into()); check("chrono time".into(), t.into(), "23:59:58".into()); check("chrono datetime".into(), d.and_time(t).into(), "2024-02-29 23:59:58".into());
+    check("chrono datetime utc".into(), chrono::Utc.from_utc_datetime(&d.and_time(t)).into(), "2024-02-29 23:59:58 +00:00".into());
+    check("chrono datetime +05:30".into(), chrono::FixedOffset::east_opt(19800).unwrap().from_utc_datetime(&d.and_time(t)).into(), "2024-03-01 05:29:58 +05:30".into());
+    let td = time::macros::date!(2024 - 02 - 29); let tt = time::macros::time!(23:59:58.000_001);
+    check("time date".into(), td.into(), "2024-02-29".into()); check("time time".into(), tt.into(), "23:59:58.000001".into());
+    check("time datetime".into(), time::PrimitiveDateTime::new(td, tt).into(), "2024-02-29 23:59:58.000001".into());
+    check("time datetime -03:30".into(), time::PrimitiveDateTime::new(td, tt).assume_offset(time::macros::offset!(-3:30)).into(), "2024-02-29 23:59:58.000001 -03:30".into());
+    check("uuid".into(), uuid::Uuid::from_u128(0x0123_4567_89ab_cdef_0123_4567_89ab_cdef).into(), "01234567-89ab-cdef-0123-4567-89abcdef".replace("cdef-0123-4567-89abcdef", "cdef-0123-456789abcdef"));
+    check("ipnetwork".into(), "10.1.2.3/8".parse::<ipnetwork::IpNetwork>().unwrap().into(), "10.1.2.3/8".into());
+    check("mac address".into(), mac_address::MacAddress::new([0, 1, 2, 3, 4, 255]).into(), "00:01:02:03:04:FF".into());
+    // arrays of text: every element its own literal (Postgres ARRAY [..])
+    for h in hostile {
+        let v = Value::Array(sea_query::ArrayType::String, Some(Box::new(vec![Value::from(h), Value::from("x")])));
+        let lit = PostgresQueryBuilder.value_to_string(&v);
+        n += 1;
+        let inner = lit.strip_prefix("ARRAY [").and_then(|x| x.strip_suffix(']'));
+        let ok = inner.map(|x| { let t: Vec<char> = (x.to_string() + " ").chars().collect(); match lexers::pg_string_lit(&t) { Some((g, e)) => g == h && t.get(e) == Some(&',') && lexers::pg_string_lit(&t[e + 1..]).map(|(g2, e2)| g2 == "x" && e + 1 + e2 == t.len() - 1).unwrap_or(false), None => false } }).unwrap_or(false);
+        if !ok { witness("C03", format!("array of text [{h:?}, \"x\"]"), format!("postgres: {lit}"), "ARRAY [<literal of the first text>,<literal of x>]"); }
+    }
+    // decimals are written bare: digits, sign, point only
+    for (what, lit) in [("decimal", MysqlQueryBuilder.value_to_string(&rust_decimal::Decimal::new(-12345, 3).into())), ("bigdecimal", MysqlQueryBuilder.value_to_string(&"-1234567890123456789012.5".parse::<bigdecimal::BigDecimal>().unwrap().into()))] {
+        n += 1;
+        if lit.is_empty() || !lit.chars().all(|c| c.is_ascii_digit() || c == '-' || c == '.') { witness("C03", what.into(), format!("written as {lit:?}"), "a bare numeric literal"); }
+    }
+    n
+}
+
 fn h(v: &impl Hash) -> u64 { let mut s = DefaultHasher::new(); v.hash(&mut s); s.finish() }
 
 fn c18() -> usize {
@@ -119,6 +176,6 @@ fn c18() -> usize {
 fn main() {
     std::panic::set_hook(Box::new(|_| {}));
     let prop = std::env::args().nth(1).unwrap_or_default();
-    let r = std::panic::catch_unwind(|| match prop.as_str() { "C12" => c12(), "C18" => c18(), _ => { eprintln!("usage: vreplay12 C12|C18"); std::process::exit(2) } });
+    let r = std::panic::catch_unwind(|| match prop.as_str() { "C12" => c12(), "C18" => c18(), "C03" => c03(), _ => { eprintln!("usage: vreplay12 C12|C18"); std::process::exit(2) } });
     match r { Ok(n) => println!("CASES {n}"), Err(_) => witness(&prop, "(whole search)".into(), "a conversion / comparison panicked".into(), "no panic") }
 }
